@@ -4,11 +4,11 @@ use crate::support::*;
 use educe::Educe;
 use core::cmp::Ordering;
 #[derive(Educe)]
-#[educe(Eq, PartialOrd, PartialEq)]
-pub struct T { #[educe(PartialOrd(rank("3")))] r#type: A<0>, #[educe(PartialOrd(ignore = true))] x: A<0>, #[educe(PartialOrd(rank = "0"))] y: A<2>, #[educe(PartialOrd(method = m_pcmp))] b: A<3> }
+#[educe(PartialEq, PartialOrd, Eq)]
+pub struct T { #[educe(PartialOrd(rank = 1i64))] size: A<0> }
 
-pub fn values() -> Vec<T> { vec![T { r#type: A(1), x: A(0), y: A(0), b: A(1) }, T { r#type: A(0), x: A(7), y: A(0), b: A(7) }, T { r#type: A(1), x: A(1), y: A(7), b: A(7) }, T { r#type: A(0), x: A(7), y: A(0), b: A(0) }, T { r#type: A(1), x: A(1), y: A(0), b: A(0) }, T { r#type: A(1), x: A(1), y: A(1), b: A(7) }, T { r#type: A(0), x: A(7), y: A(1), b: A(7) }, T { r#type: A(0), x: A(7), y: A(7), b: A(1) }, T { r#type: A(0), x: A(1), y: A(1), b: A(1) }, T { r#type: A(1), x: A(0), y: A(0), b: A(7) }, T { r#type: A(7), x: A(7), y: A(0), b: A(7) }, T { r#type: A(7), x: A(1), y: A(1), b: A(0) }, T { r#type: A(0), x: A(1), y: A(1), b: A(0) }, T { r#type: A(1), x: A(0), y: A(1), b: A(1) }, T { r#type: A(1), x: A(1), y: A(1), b: A(1) }, T { r#type: A(1), x: A(0), y: A(7), b: A(1) }, T { r#type: A(7), x: A(0), y: A(7), b: A(7) }, T { r#type: A(0), x: A(1), y: A(0), b: A(7) }, T { r#type: A(1), x: A(7), y: A(0), b: A(0) }, T { r#type: A(0), x: A(1), y: A(7), b: A(1) }, T { r#type: A(1), x: A(7), y: A(7), b: A(7) }, T { r#type: A(0), x: A(0), y: A(1), b: A(7) }, T { r#type: A(7), x: A(1), y: A(7), b: A(0) }, T { r#type: A(7), x: A(7), y: A(7), b: A(1) }, T { r#type: A(7), x: A(0), y: A(7), b: A(0) }, T { r#type: A(7), x: A(0), y: A(0), b: A(7) }, T { r#type: A(7), x: A(0), y: A(1), b: A(1) }, T { r#type: A(0), x: A(0), y: A(0), b: A(7) }, T { r#type: A(7), x: A(1), y: A(0), b: A(1) }, T { r#type: A(7), x: A(0), y: A(0), b: A(1) }, T { r#type: A(1), x: A(7), y: A(1), b: A(1) }, T { r#type: A(7), x: A(7), y: A(1), b: A(7) }, T { r#type: A(7), x: A(1), y: A(0), b: A(0) }, T { r#type: A(7), x: A(7), y: A(0), b: A(1) }, T { r#type: A(0), x: A(1), y: A(0), b: A(0) }, T { r#type: A(7), x: A(1), y: A(7), b: A(1) }] }
-pub fn show(x: &T) -> String { #[allow(unused_variables)] match x { T { r#type: p0, x: p1, y: p2, b: p3 } => format!("T({},{},{},{})", sv(p0), sv(p1), sv(p2), sv(p3)) } }
-pub fn o_disc(x: &T) -> i128 { match x { T { r#type: _, x: _, y: _, b: _ } => 0 } }
-pub fn o_pcmp(a: &T, b: &T) -> Option<Ordering> { match (a, b) { (T { r#type: a0, x: a1, y: a2, b: a3 }, T { r#type: b0, x: b1, y: b2, b: b3 }) => { match m_pcmp(a3, b3) { Some(Ordering::Equal) => (), x => return x } match ::core::cmp::PartialOrd::partial_cmp(a2, b2) { Some(Ordering::Equal) => (), x => return x } match ::core::cmp::PartialOrd::partial_cmp(a0, b0) { Some(Ordering::Equal) => (), x => return x } Some(Ordering::Equal) } } }
+pub fn values() -> Vec<T> { vec![T { size: A(0) }, T { size: A(1) }, T { size: A(7) }] }
+pub fn show(x: &T) -> String { #[allow(unused_variables)] match x { T { size: p0 } => format!("T({})", sv(p0)) } }
+pub fn o_disc(x: &T) -> i128 { match x { T { size: _ } => 0 } }
+pub fn o_pcmp(a: &T, b: &T) -> Option<Ordering> { match (a, b) { (T { size: a0 }, T { size: b0 }) => { match ::core::cmp::PartialOrd::partial_cmp(a0, b0) { Some(Ordering::Equal) => (), x => return x } Some(Ordering::Equal) } } }
 pub fn run(out: &mut Out) { let vs = values(); for (i, a) in vs.iter().enumerate() { for (j, b) in vs.iter().enumerate() { let e = o_pcmp(a, b); let g = ::core::cmp::PartialOrd::partial_cmp(a, b); out.check(g == e, "ord_2", "partial_cmp", || format!("partial_cmp({}, {}) = {:?} expected {:?}", show(a), show(b), g, e)); } } }
